@@ -1,35 +1,252 @@
 """Which units and harnesses decide which property.  (Properties are given in
-/verif/properties.jsonl; this file only wires machinery to ids.)"""
+/verif/properties.jsonl; this file only wires machinery to ids.)
+
+kani_meta kinds:
+  complete : loop-free or loops bounded by operand width / a fixed small constant, over the full
+             symbolic domain of the inputs named in 'bound' -- a proof for that function
+  bounded  : bounded stand-in (shape / column count fixed per harness); never counted as proved
+"""
 
 TRUSTED_ALWAYS = [
     'Verus 0.2026.09.13 (VC generation, z3) and vstd specifications of Vec/slice/Option/integer operations',
     'Kani 0.68.0 / CBMC 6.11 (memory model, cadical SAT back end); termination is not verified by Kani',
-    'rustc: the extracted functions are compiled by Verus\' rustc 1.98.1, the shipped binary by 1.95.0',
+    "rustc: the extracted functions are compiled by Verus' rustc 1.98.1, the shipped binary by 1.95.0",
+    'machine integers are modelled exactly (usize = 64 bit); f64 is uninterpreted in Verus and IEEE-754 bit-precise in CBMC',
 ]
 
+SHAPES_VIEW = 'shapes [3], [2,3], [2,1], [2,3,2], [3,1,2], [2,1,2,3]: every axis incl. first out-of-range, every position incl. one past the end, 4 calls past exhaustion'
+
+
+def K(kind, bound, functions):
+    return {'kind': kind, 'bound': bound, 'functions': functions}
+
+
+VIEW_QUICK = ['k_view_axis_views_2x3', 'k_view_axis_views_2x1', 'k_view_axis_iter_4', 'k_view_sum_3']
+VIEW_THOROUGH = ['k_view_axis_views_3', 'k_view_axis_views_2x3x2', 'k_view_axis_views_3x1x2', 'k_view_axis_views_2x1x2x3',
+                 'k_view_axis_iter_2x3x2', 'k_view_sum_2x3', 'k_view_sum_2x1x3', 'k_view_sum_3x2x2']
+INDEX_QUICK = ['k_index_bijection_2x3', 'k_index_bijection_1', 'k_index_get_2x3', 'k_index_get_2x3_len1', 'k_index_get_2x3_len3',
+               'k_index_iter_indices_4']
+INDEX_THOROUGH = ['k_index_bijection_5', 'k_index_bijection_3x1', 'k_index_bijection_2x3x2', 'k_index_bijection_3x1x4',
+                  'k_index_bijection_2x1x2x3', 'k_index_bijection_5x4x9x2', 'k_index_bijection_2x2x2x2x2',
+                  'k_index_get_4', 'k_index_get_4_len0', 'k_index_get_4_len2', 'k_index_get_2x1x3', 'k_index_get_2x2x2x2',
+                  'k_index_iter_indices_2x3', 'k_index_iter_indices_3x1x2', 'k_index_iter_indices_2x2x1x2']
+DECODERS = ['k_npy_decode_f4', 'k_npy_decode_f8', 'k_npy_decode_i1', 'k_npy_decode_i2', 'k_npy_decode_i4', 'k_npy_decode_i8',
+            'k_npy_decode_u1', 'k_npy_decode_u2', 'k_npy_decode_u4', 'k_npy_decode_u8']
+FOLD_QUICK = ['k_fold_5', 'k_fold_2x4', 'k_fold_1x3']
+FOLD_THOROUGH = ['k_fold_1', 'k_fold_4', 'k_fold_3x4', 'k_fold_3x3', 'k_fold_2x3x2', 'k_fold_2x2x2', 'k_fold_3x1x2x2']
+STAT_TOTAL = ['k_stat_total_1d_1', 'k_stat_total_1d_2', 'k_stat_total_1d_3', 'k_stat_total_1d_4', 'k_stat_total_2d_1xn',
+              'k_stat_total_2d_2xn', 'k_stat_total_2d_3xn', 'k_stat_total_3d', 'k_stat_total_4d']
+
+
+def meta_for(names, kind, bound, functions):
+    return {n: K(kind, bound, functions) for n in names}
+
+
+KANI_META = {}
+KANI_META.update(meta_for(VIEW_QUICK + VIEW_THOROUGH, 'bounded', 'one concrete shape per harness (in its name); every axis incl. the first out-of-range one, every position incl. one past the end, 4 calls past exhaustion',
+                          ['Array::get_axis', 'Array::iter_axis', 'AxisIter::next/size_hint', 'View::iter', 'view::Iter::next/size_hint', 'Array::sum', 'RemovedAxis<Shape>::elements', 'Shape::strides', 'Array::new']))
+KANI_META.update(meta_for(INDEX_QUICK + INDEX_THOROUGH, 'bounded', 'one concrete shape per harness (in its name); index vectors / flat positions symbolic over all usize values',
+                          ['Shape::elements', 'Shape::strides', 'Strides::flat_index', 'Strides::flat_index_unchecked', 'Shape::index_from_flat_unchecked', 'Array::get', 'Array::get_mut', 'Array::iter_indices', 'IndicesIter::next/size_hint']))
+KANI_META.update(meta_for(DECODERS, 'complete', 'none: all byte patterns of one value, both byte orders; the read loop runs at most twice (unwinding assertion on)',
+                          ['TypeDescriptor::get_read_fn', 'TypeDescriptor::read']))
+KANI_META.update({
+    'k_geno_diploid_classification': K('complete', 'none: loop-free, all Option<usize> x Option<usize> x phasings', ['impl From<Option<VcfGenotype>> for genotype::Result :: from', 'Genotype::try_from_raw']),
+    'k_geno_haploid_is_ploidy_error': K('complete', 'none: loop-free', ['genotype::Result::from']),
+    'k_geno_triploid_is_ploidy_error': K('complete', 'none: loop-free', ['genotype::Result::from']),
+    'k_geno_absent_is_missing': K('complete', 'none', ['genotype::Result::from']),
+    'k_geno_try_from_raw': K('complete', 'none: all usize', ['Genotype::try_from_raw']),
+    'k_npy_write_header_len': K('complete', 'none: all header_len values admissible for the version, 3 versions', ['Version::write_header_len', 'Version::header_len_bytes_len']),
+    'k_npy_version_bytes': K('complete', 'none: all [u8;2]', ['Version::from_header_bytes', 'Version::to_header_bytes']),
+    'k_npy_read_header_len': K('complete', 'none: all [u8;4]; short inputs of 1 and 3 bytes', ['Version::read_header_len']),
+    'k_npy_decode_partial_value_is_error': K('bounded', 'stream lengths 0..=9 bytes (f4 values), contents symbolic', ['TypeDescriptor::read']),
+    'k_npy_f64_le_roundtrip': K('complete', 'none: all 2^64 bit patterns', ['f64::to_le_bytes', 'f64::from_le_bytes']),
+    'k_site_read_site_no_projection': K('bounded', '3 input columns, 2 populations; complete in the column->population table, the genotype result per column and the pre-state of all accumulators',
+                                        ['site::Reader::read_site', 'site::Reader::reset', 'Count::set_zero']),
+    'k_site_read_site_projection': K('bounded', '3 input columns, 2 populations, targets 0..=6 per population; complete in table, results, pre-state (incl. dirty projection buffer)',
+                                     ['site::Reader::read_site', 'PartialProjection::project_unchecked', 'Projected::add_unchecked', 'ProjectIter::next', 'ProjectIter::project_value']),
+    'k_detect_spectrum_format': K('complete', 'every byte string of length 0..=8', ['spectrum::io::Format::detect', 'detect_npy', 'detect_plain_text']),
+    'k_detect_genotype_stream': K('complete', 'every stream of 0..=6 bytes, first fill_buf chunk of 3..=6 bytes (shorter first chunks: known finding F14)', ['CompressionMethod::detect', 'genotype::reader::builder::Format::detect (uncompressed branch)']),
+    'k_proj_validation_2d': K('complete', 'two axes, all usize values', ['Projection::new']),
+    'k_proj_validation_dimensions': K('complete', 'dimension pairs (2,1), (1,2); shapes with two axes over all usize', ['Projection::new', 'Projection::from_shapes', 'Count::try_from_shape']),
+    'k_proj_wiring_4_to_3': K('bounded', 'shape [4] -> [3]', ['Spectrum::project', 'Projection::project_unchecked', 'Projected::add_unchecked', 'ProjectIter']),
+    'k_proj_wiring_3x2_to_2x2': K('bounded', 'shape [3,2] -> [2,2]', ['Spectrum::project']),
+    'k_proj_wiring_2x3x2_to_2x2x1': K('bounded', 'shape [2,3,2] -> [2,2,1]', ['Spectrum::project']),
+    'k_marg_errors': K('complete', 'axis lists of length 0..=3 over all usize values, spectrum with 3 axes', ['Spectrum::marginalize (validation)']),
+    'k_marg_2x3': K('bounded', 'shape [2,3], each single axis', ['Spectrum::marginalize', 'marginalize_unchecked', 'marginalize_axis', 'Array::sum']),
+    'k_marg_2x3x2_single': K('bounded', 'shape [2,3,2], each single axis', ['Spectrum::marginalize']),
+    'k_marg_2x3x2_pairs_both_orders': K('bounded', 'shape [2,3,2], every pair of axes in both orders', ['Spectrum::marginalize']),
+    'k_marg_3x2x1x2_triples': K('bounded', 'shape [3,2,1,2], four axis lists incl. unsorted triples', ['Spectrum::marginalize']),
+    'k_stat_king_r0_r1_definition': K('complete', 'all 3x3 tables with integer cells < 2^16', ['King/R0/R1::from_spectrum']),
+    'k_stat_monomorphic_1d': K('bounded', 'shapes [4], [5]; monomorphic cells over all f64 bit patterns', ['Theta<Watterson/Tajima>', 'D<Tajima/FuLi>', 'Scs::segregating_sites']),
+    'k_stat_monomorphic_2d': K('bounded', 'shapes [3,3], [2,4]; monomorphic cells over all f64 bit patterns', ['PiXY', 'King', 'R0', 'R1', 'Scs::segregating_sites']),
+    'k_stat_s_sum_pixy_definition': K('bounded', 'shape [3,4], integer-valued cells', ['Spectrum::sum', 'Scs::segregating_sites', 'PiXY::from_spectrum']),
+})
+KANI_META.update(meta_for(FOLD_QUICK + FOLD_THOROUGH, 'bounded', 'one concrete shape per harness (in its name), distinct integer-valued cells, fill over all f64 bit patterns',
+                          ['Folded::from_spectrum', 'Folded::into_spectrum', 'Spectrum::fold', 'Shape::index_sum_from_flat_unchecked']))
+KANI_META.update(meta_for(STAT_TOTAL, 'bounded', 'the shapes listed in the harness; all 14 statistics; utils::binomial stubbed by an exact table (n <= 8)',
+                          ['Spectrum::{theta_watterson,pi,pi_xy,king,r0,r1,f2,f3,f4,fst,sum}', 'Scs::{d_tajima,d_fu_li,segregating_sites}']))
+
+A_NOODLES = 'noodles-vcf / noodles-bcf / noodles-bgzf / flate2 decode the input into sample names and allele positions correctly (dependencies, not verified)'
+A_SAMPLEMAP = 'sample::Map lookups (IndexMap/HashMap over String, SipHash) are replaced in K-site by their contract: a consistent column -> population table; sample::Map::shape/from_iter/population_sizes are not verified'
+A_PMF = 'utils::hypergeometric_pmf / binomial / ln_gamma (f64 through ln/exp) are replaced by stubs in the Kani harnesses and by an uninterpreted function in Verus: their numerical values are NOT decided'
+A_FLOATSUM = 'f64 addition is exercised on integer-valued cells only (exact); order-of-summation effects on general floats are not decided'
+A_BIN = 'the sfs-cli binary (clap parsing, anyhow/log, file/stdin/stdout handling, exit status) is not under contract'
+
 REGISTRY = {
+    'C01': {
+        'title': 'create counts every complete site once at its per-population ALT index',
+        'level': 'model_checking',
+        'verus': ['v_geno'],
+        'kani_quick': ['k_geno_diploid_classification', 'k_site_read_site_no_projection'],
+        'kani_thorough': ['k_index_get_2x3', 'k_index_bijection_2x3'],
+        'assumptions': [A_NOODLES, A_SAMPLEMAP, A_BIN, 'Runner::run adds 1.0 at the index returned by read_site (bin crate, not verified); the shape rule 1+2*size is part of the assumed sample::Map contract'],
+        'not_decided': ['end-to-end composition VCF/BCF bytes -> printed integers', 'sample::Map::shape', 'Runner::run', 'precision 0 printing'],
+    },
+    'C02': {
+        'title': 'create --project: hypergeometric down-sampling of every covered site',
+        'level': 'model_checking',
+        'verus': ['v_projiter'],
+        'verus_pairs': {'v_projiter': ['k_proj_wiring_3x2_to_2x2']},
+        'kani_quick': ['k_site_read_site_projection', 'k_proj_validation_2d'],
+        'kani_thorough': ['k_proj_wiring_4_to_3', 'k_proj_wiring_3x2_to_2x2', 'k_proj_validation_dimensions'],
+        'assumptions': [A_NOODLES, A_SAMPLEMAP, A_PMF, A_BIN, 'site::reader::Builder::build (dimension/size validation against the sample map, individuals -> 2i+1) needs the hash-map sample table and is not verified'],
+        'not_decided': ['values of the hypergeometric pmf', '--project-individuals i == --project-shape 2i+1 (builder.rs Project::shape, not under contract)', '--precision printing'],
+    },
+    'C03': {
+        'title': 'projection is exact hypergeometric down-sampling at every size; its laws hold',
+        'level': 'model_checking',
+        'verus': ['v_projiter'],
+        'verus_pairs': {'v_projiter': ['k_proj_wiring_3x2_to_2x2']},
+        'kani_quick': ['k_proj_validation_2d', 'k_proj_validation_dimensions'],
+        'kani_thorough': ['k_proj_wiring_4_to_3', 'k_proj_wiring_3x2_to_2x2', 'k_proj_wiring_2x3x2_to_2x2x1'],
+        'assumptions': [A_PMF, A_FLOATSUM],
+        'not_decided': ['that the coefficient equals the hypergeometric pmf; finiteness for thousands of chromosomes; mass preservation, identity, two-step, commutation laws (real-number identities of the pmf)'],
+    },
+    'C04': {
+        'title': 'marginalization is the array sum over the removed axes',
+        'level': 'proof',
+        'verus': ['v_view', 'v_axisiter'],
+        'verus_pairs': {'v_view': ['k_view_axis_views_2x3'], 'v_axisiter': ['k_view_axis_views_2x3']},
+        'kani_quick': ['k_marg_errors', 'k_view_sum_3', 'k_view_axis_views_2x3'],
+        'kani_thorough': ['k_marg_2x3', 'k_marg_2x3x2_single', 'k_marg_2x3x2_pairs_both_orders', 'k_marg_3x2x1x2_triples', 'k_view_sum_2x3', 'k_view_sum_2x1x3'],
+        'assumptions': [A_FLOATSUM, A_BIN, 'Array::sum / marginalize_unchecked (iterator adapters) are checked by Kani on the listed shapes only'],
+        'not_decided': ['--marginalize-keep complement (View::run, bin crate)', 'create/marginalize relation on call sets'],
+    },
+    'C05': {
+        'title': 'folding is mass-preserving, idempotent and symmetric under allele polarity',
+        'level': 'proof',
+        'verus': ['v_indexsum'],
+        'verus_pairs': {'v_indexsum': ['k_fold_2x4']},
+        'kani_quick': FOLD_QUICK,
+        'kani_thorough': FOLD_THOROUGH,
+        'assumptions': [A_FLOATSUM, A_BIN, 'Shape::elements (iterator product) is assumed in V-indexsum and checked by K-index on concrete shapes',
+                        "REWRITE in V-indexsum: `n /= v` (v: &usize) is verified as `n /= *v` (core's forward_ref_op_assign impl)"],
+        'not_decided': ['Fill -> f64 mapping and I/O of `sfs fold` (bin crate)'],
+    },
+    'C06': {
+        'title': 'statistics equal their definitions on genotypes and the published estimators',
+        'level': 'model_checking',
+        'kani_quick': ['k_stat_king_r0_r1_definition', 'k_stat_s_sum_pixy_definition'],
+        'kani_thorough': [],
+        'assumptions': [A_PMF, A_FLOATSUM, A_BIN],
+        'not_decided': ['f2, f3, f4, Fst (inexact frequencies i/(n-1)), Watterson, pi, Tajima D, Fu-Li D (binomial through exp/ln, harmonic sums, sqrt): no order-independent exact postcondition; genotype-level reading of all 14 (composition with create)'],
+    },
+    'C07': {
+        'title': 'spectrum files round-trip through text and npy; the tool reads what it writes',
+        'level': 'proof',
+        'verus': ['v_npyhdr'],
+        'kani_quick': ['k_npy_f64_le_roundtrip', 'k_npy_decode_f8', 'k_detect_spectrum_format'],
+        'kani_thorough': [],
+        'assumptions': ['claimed for the npy value path only: writer emits the values in data order as 8 little-endian bytes (V-npyhdr), f64 LE encode/decode is the identity on all bit patterns and the f8 decoder returns the decoded chunk (Kani)',
+                        'HeaderDict Display text and the nom header parser are not verified (string formatting / parsing in std and nom)'],
+        'not_decided': ['text format ({:.p$} and f64::from_str are std algorithms)', 'shape round trip through the header text', 'auto-detection through pipes, cross-command acceptance'],
+    },
     'C08': {
         'title': 'genotype to allele-count classification is total and exact',
         'level': 'proof',
         'verus': ['v_geno'],
-        'kani_quick': ['k_geno_diploid_classification', 'k_geno_haploid_is_ploidy_error',
-                       'k_geno_triploid_is_ploidy_error', 'k_geno_absent_is_missing', 'k_geno_try_from_raw'],
-        'kani_meta': {
-            'k_geno_diploid_classification': {'kind': 'complete', 'bound': 'none: loop-free, all Option<usize> x Option<usize> x phasings',
-                                              'functions': ['impl From<Option<VcfGenotype>> for genotype::Result :: from', 'Genotype::try_from_raw']},
-            'k_geno_haploid_is_ploidy_error': {'kind': 'complete', 'bound': 'none: loop-free', 'functions': ['genotype::Result::from']},
-            'k_geno_triploid_is_ploidy_error': {'kind': 'complete', 'bound': 'none: loop-free', 'functions': ['genotype::Result::from']},
-            'k_geno_absent_is_missing': {'kind': 'complete', 'bound': 'none', 'functions': ['genotype::Result::from']},
-            'k_geno_try_from_raw': {'kind': 'complete', 'bound': 'none: all usize', 'functions': ['Genotype::try_from_raw']},
-        },
-        'assumptions': ['noodles-vcf parses GT text / noodles-bcf decodes int8 vectors into allele positions correctly (dependency, not verified)',
-                        'ploidy > 3 behaves like ploidy 3 (slice pattern [a, b] matches length 2 only)'],
-        'not_decided': ['error message naming contig:position (anyhow! in the bin crate)', 'GT text/BCF bytes -> alleles (noodles)'],
+        'kani_quick': ['k_geno_diploid_classification', 'k_geno_haploid_is_ploidy_error', 'k_geno_triploid_is_ploidy_error',
+                       'k_geno_absent_is_missing', 'k_geno_try_from_raw', 'k_site_read_site_no_projection'],
+        'assumptions': [A_NOODLES, 'ploidy > 3 behaves like ploidy 3 (slice pattern [a, b] matches length 2 only)', A_SAMPLEMAP],
+        'not_decided': ['error message naming contig:position (anyhow! in the bin crate)', 'GT text / BCF bytes -> alleles (noodles)'],
+    },
+    'C09': {
+        'title': 'axes follow first appearance of population labels; only listed samples count',
+        'level': 'model_checking',
+        'kani_quick': ['k_site_read_site_no_projection'],
+        'kani_thorough': ['k_site_read_site_projection'],
+        'assumptions': [A_SAMPLEMAP, A_NOODLES, A_BIN],
+        'not_decided': ['first-appearance id assignment (population::Map::get_or_insert: closure mutating its capture over an IndexSet -- outside Verus\' subset, hash set outside CBMC\'s reach)',
+                        'samples-file parsing, --samples vs --samples-file, unknown-sample / empty-list errors (Builder::build)'],
+    },
+    'C11': {
+        'title': "a site's contribution is independent of earlier sites (additive, order-free)",
+        'level': 'model_checking',
+        'verus': ['v_projiter'],
+        'verus_pairs': {'v_projiter': ['k_site_read_site_projection']},
+        'kani_quick': ['k_site_read_site_no_projection', 'k_site_read_site_projection'],
+        'assumptions': [A_SAMPLEMAP, A_PMF, 'history independence is shown by running read_site from an ARBITRARY pre-state of counts/totals/skipped list/projection buffer: every reachable state is an instance'],
+        'not_decided': ['additivity / permutation of the running sum in Runner::run (bin crate)', 'floating-point summation order with projection'],
+    },
+    'C14': {
+        'title': 'statistics are invariant under the transformations that must not matter',
+        'level': 'model_checking',
+        'kani_quick': ['k_stat_king_r0_r1_definition', 'k_stat_monomorphic_2d'],
+        'kani_thorough': ['k_stat_monomorphic_1d'],
+        'assumptions': [A_PMF, A_FLOATSUM],
+        'not_decided': ['f3/f4 as combinations of f2 of marginals, invariance under folding, general positive scale factors, f2/Fst/pi_xy swap symmetry (real-number identities that do not hold bitwise in f64)'],
+    },
+    'C15': {
+        'title': 'npy output conforms to NPY 1.0; every supported numpy dtype is read exactly',
+        'level': 'proof',
+        'verus': ['v_npyhdr'],
+        'kani_quick': ['k_npy_write_header_len', 'k_npy_version_bytes', 'k_npy_read_header_len'] + DECODERS,
+        'kani_thorough': [],
+        'assumptions': ['io::Write::write_all contract (std documentation) is assumed in V-npyhdr', 'HeaderDict Display text is an uninterpreted function of (descr, fortran_order, shape) in V-npyhdr; its literal form and the nom parser are not verified',
+                        'dictionary text shorter than 65000 bytes (shape with at most 1000 axes)'],
+        'not_decided': ['exact dictionary text; parser acceptance of header spelling variants (nom)', 'rejection of Fortran order / unsupported dtypes through the header parser'],
+    },
+    'C16': {
+        'title': 'damaged spectrum files are rejected, never read as a different spectrum',
+        'level': 'model_checking',
+        'kani_quick': ['k_npy_decode_partial_value_is_error', 'k_npy_read_header_len', 'k_detect_spectrum_format', 'k_index_get_2x3_len1'],
+        'kani_thorough': [],
+        'assumptions': ['claimed for the value section and the length field: a partial trailing value or a short length field is an error; Array::new rejects a value count different from the product of the shape (checked with K-index harnesses through Array::from_iter)',
+                        'truncation inside the header dictionary and text-format damage go through nom / str parsing and are not verified'],
+        'not_decided': ['text token removal/insertion', 'CLI exit status and "nothing written"'],
+    },
+    'C17': {
+        'title': 'every invocation ends in success or a diagnosed error, never a panic',
+        'level': 'model_checking',
+        'verus': ['v_axis', 'v_view', 'v_axisiter', 'v_npyhdr', 'v_indexsum', 'v_projiter'],
+        'kani_quick': ['k_detect_spectrum_format', 'k_marg_errors', 'k_proj_validation_2d', 'k_stat_total_1d_3'],
+        'kani_thorough': STAT_TOTAL,
+        'assumptions': [A_BIN, A_NOODLES, 'panic-freedom (overflow, bounds, unwrap/expect, division) is an obligation of every function under contract in the Verus units and of every Kani harness; it is claimed for those functions under their stated preconditions only'],
+        'not_decided': ['totality of the process over arbitrary bytes (noodles, flate2, nom, clap)', "main's mapping of Err to exit status 1", 'sample::Map::shape unwrap on contradictory sample lists'],
+    },
+    'C18': {
+        'title': 'results do not depend on how the byte stream is chunked; I/O errors surface',
+        'level': 'proof',
+        'verus': ['v_npyhdr'],
+        'kani_quick': ['k_detect_genotype_stream', 'k_npy_decode_partial_value_is_error', 'k_npy_read_header_len'],
+        'kani_thorough': [],
+        'assumptions': ['writer: for every sink obeying the write_all contract the bytes are the same sequence however many the sink accepts per call, and Ok is returned only if no write failed (V-npyhdr, unbounded)',
+                        'reader: read_exact / fill_buf of std are assumed chunk-independent; the npy value loop is exercised on slices only'],
+        'not_decided': ['VCF/BCF/BGZF streams (noodles, flate2)', 'text writer (writeln!/format!)', 'BGZF branch of format detection (gzip decoder over the first buffer)'],
     },
     'C19': {
         'title': 'array, axis-view and iterator API invariants',
         'level': 'proof',
-        'verus': ['v_axis'],
-        'kani_quick': [],
+        'verus': ['v_axis', 'v_view', 'v_axisiter', 'v_indexsum'],
+        'verus_pairs': {'v_view': ['k_view_axis_views_2x3'], 'v_axisiter': ['k_view_axis_views_2x3', 'k_view_axis_iter_4'], 'v_axis': ['k_view_axis_views_2x1']},
+        'kani_quick': VIEW_QUICK + INDEX_QUICK,
+        'kani_thorough': VIEW_THOROUGH + INDEX_THOROUGH,
+        'assumptions': ['Array representation invariant (data length = product of shape, strides = suffix products) is a precondition of the Verus contracts; it is established by Array::new/new_unchecked + Shape::strides, which use iterator adapters and are checked by Kani on the listed shapes',
+                        'RemovedAxis<Shape>::elements and Shape/Strides::as_ref contracts are assumed in V-view/V-axisiter (as_ref is proved in V-axis; elements is checked by K-view)',
+                        'flat <-> multi-index bijection: proved as mathematics over the row-major spec functions (V-indexsum lemmas), and for the real index_from_flat_unchecked/flat_index by Kani on the listed shapes'],
+        'not_decided': [],
     },
 }
+
+for _p in REGISTRY.values():
+    _p['kani_meta'] = KANI_META
